@@ -26,6 +26,7 @@ CONSTANTS
   MaxSessions, MaxChanges, MaxRoots, MaxBU,
   CheckLeftoverOfAborted,     \* TRUE: check_task validates the leftover dependencies of a task without output (defect F2)
   EmitScenarios,              \* TRUE: print the scenario (program table + history) of every finished behaviour as JSON
+  MidSession,                 \* TRUE: resources may also change while a session is open (between two API calls)
   Conform                     \* TRUE: used by PieConform.tla: programs and environment come from a recorded scenario, so the
                               \* restrictions that only shape the explored space (Permitted, bounds, reporting discipline) are lifted
 
@@ -115,7 +116,9 @@ ChooseInit ==
   /\ UNCHANGED <<m, prog, env, viol, kfs>>
 
 ExtSet(r, v) ==
-  /\ ctl.mode = "idle" /\ (Conform \/ (env.changes < MaxChanges /\ st.res[r] # v))
+  /\ \/ ctl.mode = "idle"
+     \/ (MidSession \/ Conform) /\ ctl.mode = "sess" /\ ctl.stack = <<>> /\ ctl.roots > 0
+  /\ Conform \/ (env.changes < MaxChanges /\ st.res[r] # v)
   /\ Emit(<<[ev |-> "ext_set", r |-> r, v |-> v]>>, prog)
   /\ env' = [env EXCEPT !.changes = @ + 1, !.dirty = @ \cup {r}]
   /\ hist' = Append(hist, [s |-> "set", r |-> r, v |-> v])
@@ -559,6 +562,13 @@ StoreWellFormed ==
 RanksRespectEdges ==
   /\ {st.rank[n] : n \in DOMAIN st.rank} = 1..Cardinality(DOMAIN st.rank)
   /\ \A t \in TaskIds : \A i \in DOMAIN st.deps[t] : st.rank[t] < st.rank[DepNode(st, st.deps[t][i])]
+
+\* a build in progress can always take a step: the engine is never stuck inside a build (together with BoundedStack and
+\* the finite programs: every build returns or aborts)
+\* (a lazily generated program entry reached again on a path where it is not permitted cuts the behaviour: ExecStep)
+Cut == /\ ctl.stack # <<>> /\ Top.k = "ex" /\ ~ctl.ret
+       /\ LET key == <<Top.t, Top.pc, Top.acc>> IN key \in DOMAIN prog /\ ~Permitted(Top.t, Top.pc, Top.acc, prog[key])
+Progress == (ctl.stack # <<>> \/ ctl.mode = "busched") => (Cut \/ ENABLED Internal)
 
 \* K-findings must be explained by the listed predicates only
 NoKF == kfs = {}
